@@ -104,15 +104,19 @@ class Report:
         self.positives[rid] = self.positives.get(rid, True) and bool(fired)
 
     # -------------------------------------------------------------- finishing
-    def finish(self) -> int:
+    def new_findings(self):
+        known = [k for k in load_known() if k["property"] == self.pid and k.get("status", "known") == "known"]
+        return [f for f in self.findings if not any(k["rule"] == f.rule and k["key"] == f.key for k in known)]
+
+    def finish(self, partial: bool = False) -> int:
         known = [k for k in load_known() if k["property"] == self.pid]
         # vacuity / liveness
-        for rid, r in self.rules.items():
+        for rid, r in ({} if partial else self.rules).items():
             if r["instances"] < r["floor"]:
                 raise AnalysisError("rule %s matched %d instances, below the floor %d confirmed by hand "
                                     "(the extractor no longer recognises the code)"
                                     % (rid, r["instances"], r["floor"]))
-        for rid, fired in self.positives.items():
+        for rid, fired in ({} if partial else self.positives).items():
             if not fired:
                 raise AnalysisError("positive example of rule %s did not fire (the rule is dead)" % rid)
 
@@ -128,7 +132,7 @@ class Report:
                     self.pid, k["fails"], f.rule, f.key, f.where))
             else:
                 new.append(f)
-        stale = [k for k in known if k.get("status", "known") == "known" and k not in matched]
+        stale = [] if partial else [k for k in known if k.get("status", "known") == "known" and k not in matched]
         for k in stale:
             self.notes.append("known finding %s/%s no longer reproduces on this tree" % (k["rule"], k["key"]))
 
